@@ -52,6 +52,8 @@ structure RState where
   edges : List Edge := []
   lastElem : Nat := 0
   weightKey : Nat := sWeight
+  /-- `expecting_weight_text`: set by a weight <data> start tag, consumed by the next event -/
+  expecting : Bool := false
 
 /-- `add_node` -/
 def addNode (st : RState) (attrs : Attrs) : Except ErrKind RState :=
@@ -99,46 +101,50 @@ def setLastWeight (edges : List Edge) (w : W) : List Edge :=
   | [] => []
   | e :: rest => (({ e with w := w } : Edge) :: rest).reverse
 
-/-- The `loop { match reader.read_event_into(..) }` of `read_graphml_string`; structural on the
-    event list. Running out of events without `Eof` cannot happen (quick-xml ends every stream
-    with `Eof`); it is treated like `Eof`. -/
+/-- One iteration of `loop { match reader.read_event_into(..) }`: `none` = `break` (Eof). -/
+def readStep (st0 : RState) (ev : Event) : Except ErrKind (Option RState) :=
+  let isWeightText := st0.expecting
+  let st := { st0 with expecting := false }
+  let cont (r : Except ErrKind RState) : Except ErrKind (Option RState) :=
+    match r with | .ok s => .ok (some s) | .error e => .error e
+  match ev with
+  | .text v =>
+    if isWeightText then
+      if st.lastElem == sEdge && !st.edges.isEmpty then
+        match v with
+        | none => .error .ReadError
+        | some w => .ok (some { st with edges := setLastWeight st.edges w })
+      else .ok (some st)
+    else .ok (some st)
+  | .eof => .ok none
+  | .error => .error .ReadError
+  | .empty name attrs =>
+    if name == sNode then cont (addNode st attrs)
+    else if name == sEdge then cont (addEdge st attrs)
+    else if name == sKey then cont (keyElem st attrs)
+    else if name == sGraph then cont (graphElem st attrs)
+    else .ok (some st)
+  | .start name attrs =>
+    if name == sGraph then cont (graphElem st attrs)
+    else if name == sNode then cont (addNode { st with lastElem := sNode } attrs)
+    else if name == sEdge then cont (addEdge { st with lastElem := sEdge } attrs)
+    else if name == sKey then cont (keyElem st attrs)
+    else if name == sData then
+      match attrs with
+      | none => .error .ReadError
+      | some a => .ok (some (if attrGet a sKey == some st.weightKey then { st with expecting := true } else st))
+    else .ok (some st)
+  | _ => .ok (some st)
+
+/-- The reader loop; structural on the event list. Running out of events without `Eof` cannot
+    happen (quick-xml ends every stream with `Eof`); it is treated like `Eof`. -/
 def readLoop (st : RState) : List Event → Except ErrKind RState
   | [] => .ok st
   | ev :: rest =>
-    match ev with
-    | .eof => .ok st
-    | .error => .error .ReadError
-    | .empty name attrs =>
-      if name == sNode then (match addNode st attrs with | .ok st => readLoop st rest | .error e => .error e)
-      else if name == sEdge then (match addEdge st attrs with | .ok st => readLoop st rest | .error e => .error e)
-      else if name == sKey then (match keyElem st attrs with | .ok st => readLoop st rest | .error e => .error e)
-      else if name == sGraph then (match graphElem st attrs with | .ok st => readLoop st rest | .error e => .error e)
-      else readLoop st rest
-    | .start name attrs =>
-      if name == sGraph then (match graphElem st attrs with | .ok st => readLoop st rest | .error e => .error e)
-      else if name == sNode then
-        (match addNode { st with lastElem := sNode } attrs with | .ok st => readLoop st rest | .error e => .error e)
-      else if name == sEdge then
-        (match addEdge { st with lastElem := sEdge } attrs with | .ok st => readLoop st rest | .error e => .error e)
-      else if name == sKey then (match keyElem st attrs with | .ok st => readLoop st rest | .error e => .error e)
-      else if name == sData then
-        match attrs with
-        | none => .error .ReadError
-        | some a =>
-          if attrGet a sKey == some st.weightKey then
-            -- the reader consumes the next event itself
-            match rest with
-            | [] => .ok st
-            | .text v :: rest' =>
-              if st.lastElem == sEdge && !st.edges.isEmpty then
-                match v with
-                | none => .error .ReadError
-                | some w => readLoop { st with edges := setLastWeight st.edges w } rest'
-              else readLoop st rest'
-            | _ :: rest' => readLoop st rest'
-          else readLoop st rest
-      else readLoop st rest
-    | _ => readLoop st rest
+    match readStep st ev with
+    | .error e => .error e
+    | .ok none => .ok st
+    | .ok (some st') => readLoop st' rest
 
 /-- `read_graphml_string` on the event list -/
 def readEvents (specs : Specs) (evs : List Event) : Outcome Store :=
